@@ -95,6 +95,17 @@ func VerifCloseIdle() bool {
 	return true
 }
 
+// VerifRecvWindow returns the connection-level receive window, as the server
+// counts it, of the connection most recently served. Call it at quiescence.
+func VerifRecvWindow() (int32, bool) {
+	sc := verifLastSC.Load()
+	if sc == nil {
+		return 0, false
+	}
+
+	return sc.currentWindow, true
+}
+
 // VerifErrorInfo describes an Error value.
 func VerifErrorInfo(err error) (code ErrorCode, goAway bool, ok bool) {
 	e, isErr := err.(Error)
